@@ -58,6 +58,8 @@ func main() {
 		}
 	case "setup":
 		setup()
+	case "manifest":
+		manifest()
 	case "replay":
 		if len(os.Args) < 3 {
 			fatal("replay needs a file")
